@@ -517,6 +517,19 @@ func check(prop, tierArg string) int {
 	// and an API stage); they run one after the other and are aggregated
 	stages := []stageSpec{{harness: spec.harness, quickS: spec.quickS, thoroughS: spec.thoroughS}}
 	stages = append(stages, spec.extra...)
+	if only := os.Getenv("VERIF_STAGE"); only != "" {
+		// development aid (never set by registered checks): run the stage of one harness only
+		var sel []stageSpec
+		for _, st := range stages {
+			if st.harness == only {
+				sel = append(sel, st)
+			}
+		}
+		if len(sel) == 0 {
+			fatal(2, "VERIF_STAGE=%s: property %s has no such stage", only, prop)
+		}
+		stages = sel
+	}
 	var results []workerRun
 	var buildS float64
 	var instrLog []string
